@@ -32,7 +32,7 @@ fn strata(t: Tier) -> Vec<Stratum> {
     vec![
         // (type, encoding) pairs; each case sweeps every byte length 0..=5*entsize-1
         ex("small-lengths-exhaustive", NTYPES * 4),
-        st("random-larger", scale(t, 4_000, 400_000, 8)),
+        st("random-larger", scale(t, 400_000, 4_000_000, 8)),
     ]
 }
 
